@@ -28,6 +28,9 @@ KTYPES = (
 NULLABLE_KTYPES = ("string", "bytes", "records", "uuid", "datetime_i64")
 
 
+INSTANCE_TZ: datetime.tzinfo | None = None  # when set, tree_to_instance expresses timestamps in this zone (the instant is unchanged)
+
+
 class DescribeError(Exception):
     pass
 
@@ -259,7 +262,13 @@ def _leaf_to_python(fs: FieldSpec, x: object, error_code_cls: object) -> object:
     if k in ("timedelta_i32", "timedelta_i64"):
         return datetime.timedelta(milliseconds=x)
     if k == "datetime_i64":
-        return EPOCH + datetime.timedelta(milliseconds=x)
+        when = EPOCH + datetime.timedelta(milliseconds=x)
+        if INSTANCE_TZ is not None:
+            try:
+                when = when.astimezone(INSTANCE_TZ)  # same instant, other zone
+            except OverflowError:
+                pass
+        return when
     if k == "uuid":
         return _uuid.UUID(bytes=x)
     if k == "error_code":
